@@ -62,6 +62,8 @@ def run_property(prop: str, repo: Path, tier: str, seed: int, write_evidence: bo
             armed = False
         from .rules.support import check_reachable_support
         check_reachable_support(ctx)
+        from .rules.common import check_field_accessors
+        check_field_accessors(ctx)
         extra = {}
         if tier == "thorough":
             if hasattr(mod, "thorough"):
